@@ -698,7 +698,7 @@ def c09(longs, pairs, w3, U):
 # ---------------------------------------------------------------------------------- C16
 VALUE_LIKE = {"Sma", "Cumulative", "Alma", "Welford", "WelfordMean", "Vst", "Ema", "Min", "Max", "WRolling", "WRollingMean", "Cyber"}
 C16_WIDTH = {"Rsi": F(100), "Cog": None}
-def c16(groups, tol=None):
+def c16(groups, tol=None, prefix="c16"):
     out = []
     for (kind, cf, ce, flatv) in groups:
         name = cf.desc[0]
@@ -711,6 +711,8 @@ def c16(groups, tol=None):
         scale_ = mag if name in VALUE_LIKE else width
         if name == "Roc":
             scale_ = F(100)
+        if name == "WelfordVar":
+            scale_ = mag * mag
         if name == "Vst":
             scale_ = mag          # value-like when the window is flat; otherwise x/std, judged relative to its own size below
         t = tol if tol is not None else (F(1, 10 ** 6) if kind == "long" or kind == "f32" else F(1, 10 ** 4))
@@ -725,13 +727,13 @@ def c16(groups, tol=None):
             if be.kind != "S":
                 continue
             if bf.kind != "S":
-                out.append(viol("c16-%s-%s%s" % ("flat" if kind == "flat" else "drift", name.lower(), "-f32" if kind == "f32" else ""),
+                out.append(viol(prefix + "-%s-%s%s" % ("flat" if kind == "flat" else "drift", name.lower(), "-f32" if kind == "f32" else ""),
                                 "%s: floating-point run fails (%s) where the exact run reports %s" % (d_sexpr(cf.desc), bf.kind, float(be.val)), [cf] if len(cf.ops) < 120 else [], desc=d_sexpr(cf.desc)))
                 worst = None
                 break
             x = F(f64_of_bits(bf.val)) if math.isfinite(f64_of_bits(bf.val)) else None
             if x is None:
-                out.append(viol("c16-%s-%s" % ("flat" if kind == "flat" else "drift", name.lower()), "%s: non-finite floating-point output where the exact run reports %s" % (d_sexpr(cf.desc), float(be.val)), [cf] if len(cf.ops) < 120 else [], desc=d_sexpr(cf.desc)))
+                out.append(viol(prefix + "-%s-%s" % ("flat" if kind == "flat" else "drift", name.lower()), "%s: non-finite floating-point output where the exact run reports %s" % (d_sexpr(cf.desc), float(be.val)), [cf] if len(cf.ops) < 120 else [], desc=d_sexpr(cf.desc)))
                 worst = None
                 break
             sc = scale_
@@ -741,7 +743,7 @@ def c16(groups, tol=None):
             if worst is None or err > worst[0]:
                 worst = (err, i, x, be.val)
         if worst is not None and worst[0] > t:
-            out.append(viol("c16-%s-%s%s" % ("flat" if kind == "flat" else "drift", name.lower(), "-f32" if kind == "f32" else ""),
+            out.append(viol(prefix + "-%s-%s%s" % ("flat" if kind == "flat" else "drift", name.lower(), "-f32" if kind == "f32" else ""),
                             "%s: floating-point output %.12g vs exact %.12g at operation %d: off by %.3g x scale (tolerance %.0e)%s"
                             % (d_sexpr(cf.desc), float(worst[2]), float(worst[3]), worst[1] + 1, float(worst[0]), float(t),
                                " after a volatile stretch followed by %s identical values" % cf.meta.get("flat_len") if kind == "flat" else ""),
